@@ -120,6 +120,8 @@ def main():
     ap.add_argument('--no-lean', action='store_true', help='skip the Lean build/audit (development only)')
     a = ap.parse_args()
     pid, tier = a.property, a.tier
+    if a.no_lean or a.replay:
+        os.environ['VERIF_EVIDENCE_SCRATCH'] = '1'     # evidence/<id>.json describes full quick/thorough runs only
     seed = int(os.environ.get('VERIF_SEED', '0'))
     t0 = time.time()
 
